@@ -369,7 +369,7 @@ pub fn c16(out: &mut Out) {
     ];
     let mut n = 0;
     for (hi, hist) in histories.iter().enumerate() {
-        for pause_every in [0usize, 2] {
+        for (pause_every, cap) in [(0usize, 10_000usize), (2, 10_000), (0, 1)] {
             n += 1;
             let r = catch_unwind(AssertUnwindSafe(|| rt.block_on(async {
                 let cfg = worterbuch::Config::new(None).await.expect("config");
@@ -380,7 +380,8 @@ pub fn c16(out: &mut Out) {
                 let id_p = uuid::Uuid::from_u128(0xA7);
                 let id_w = uuid::Uuid::from_u128(0xA8);
                 for id in [id_a, id_p, id_w] { api.connected(id, None, Protocol::UNIX).await.expect("connected"); }
-                let (tx_a, mut rx_a) = mpsc::channel(10_000);
+                // cap = 1: a congested client connection (the aggregated side can hand over one batch at a time; nothing may be dropped)
+                let (tx_a, mut rx_a) = mpsc::channel(cap);
                 let (tx_p, mut rx_p) = mpsc::channel(10_000);
                 let (tx_w, mut rx_w) = mpsc::channel(10_000);
                 let mut pa = Proto::new(id_a, tx_a, false, api.config().clone(), api.clone());
@@ -425,12 +426,12 @@ pub fn c16(out: &mut Out) {
             })));
             match r {
                 Err(_) => out.report("C16/no panic in the aggregation scenario", Some("UNLISTED"), json!({"history": hi})),
-                Ok(Some(w)) => out.report("C16/the concatenated batches of an aggregated subscription hold, per key, the event sequence of the plain subscription", Some("UNLISTED"), json!({"history": hist, "pause_every": pause_every, "difference": w})),
+                Ok(Some(w)) => out.report("C16/the concatenated batches of an aggregated subscription hold, per key, the event sequence of the plain subscription", Some("UNLISTED"), json!({"history": hist, "pause_every": pause_every, "client_channel_capacity": cap, "difference": w})),
                 Ok(None) => {}
             }
         }
     }
-    out.bounded("C16/content of aggregated pattern subscriptions against a plain subscription of the same pattern (real Proto + core task + aggregator task)", "5 histories over 4 keys (repeats, set/delete alternation, bursts, pdelete of several keys) x {no pause, a pause longer than the interval after every 2nd request}; interval 20 ms; the delay bound is NOT checked", n, n);
+    out.bounded("C16/content of aggregated pattern subscriptions against a plain subscription of the same pattern (real Proto + core task + aggregator task)", "5 histories over 4 keys (repeats, set/delete alternation, bursts, pdelete of several keys) x {no pause, a pause longer than the interval after every 2nd request, a client channel of capacity 1}; interval 20 ms; the delay bound is NOT checked", n, n);
 }
 
 fn token(secret: &str, claims: Value) -> String {
